@@ -505,7 +505,11 @@ POISONS = ['nan', 'inf', 'mix', 'ninf', 'big']
 #  same7  = a complete .npy of the declared shape and float64 holding other numbers
 #  long / short = a complete float64 .npy with two spikes more / one spike less     i16 = same shape, int16
 #  trunc  = a same-shape file cut short (interrupted export)      junk = bytes that are no .npy file
-PRES = ['prev', 'same7', 'prevf', 'long', 'trunc', 'prev', 'i16', 'junk', 'short']
+#  link   = a symbolic link to a complete same-shape file elsewhere      dangling = a symbolic link to a file that does not exist
+PRES = ['prev', 'same7', 'prevf', 'long', 'trunc', 'prev', 'i16', 'junk', 'short', 'link', 'dangling']
+# 'ppath': form of the export path argument: absolute str (default) | pathlib.Path | a str / Path RELATIVE to the
+# working directory of the process (which is then the case's scratch directory)
+PPATHS = ['path', 'rel', 'relpath']
 
 
 def _stage6_axes(case, j):
@@ -516,6 +520,8 @@ def _stage6_axes(case, j):
         inp['poison'] = _rot(POISONS, j // 3)
     if case['kind'] in ('export', 'store', 'exportu') and j % 4 == 2:
         inp['pre'] = _rot(PRES, j // 4)
+    if case['kind'] in ('export', 'store', 'exportu') and j % 5 == 3:
+        inp['ppath'] = _rot(PPATHS, j // 5)
     return case
 
 
@@ -718,6 +724,10 @@ CORPUS = [
     {'kind': 'export', 'inp': {'sizes': [3], 'nc': 2, 'cs': 2, 'backend': 'flat', 'dtype': 'int16', 'pre': 'trunc',
                                'spikes': [[0, [0, 1]], [2, [1, -1]]], 'n': 3, 'w': 2, 'factor': 'fh',
                                'sdtype': 'int64', 'cache': False, 'threads': 1}},
+    # the export path given relative to the working directory, where a symbolic link to a complete same-shape file sits
+    {'kind': 'export', 'inp': {'sizes': [2, 2], 'nc': 2, 'cs': 3, 'backend': 'flat', 'dtype': 'float32', 'pre': 'link',
+                               'ppath': 'relpath', 'spikes': [[1, [0, 1]], [3, [1, -1]]], 'n': 2, 'w': 2, 'factor': 'np2',
+                               'sdtype': 'uint32', 'cache': False, 'threads': 1}},
     # TemplateModel raw route, -1 among the queried channels, every unrequested sample of the float raw files NaN/inf
     {'kind': 'model', 'inp': {'sizes': [4, 3], 'nc': 3, 'cs': 3, 'dtype': 'float32', 'samples': [0, 2, 2, 6], 'n': 4,
                               'extra': 1, 'cmrot': 1, 'offset': 0, 'tdtype': 'uint64', 'raw': True, 'store': None,
@@ -1058,6 +1068,12 @@ def _pre_file(np, path, i, tr, table):
     elif pre == 'junk':
         with open(path, 'wb') as f:
             f.write(b'not an npy file\n' * 3)
+    elif pre == 'link':
+        target = os.path.join(os.path.dirname(path), 'elsewhere.npy')
+        np.save(target, np.full(shape, 7.0))
+        os.symlink(target, path)
+    elif pre == 'dangling':
+        os.symlink(os.path.join(os.path.dirname(path), 'absent.npy'), path)
     else:
         raise ValueError(pre)
 
@@ -1077,7 +1093,20 @@ def _do_export(np, d, i):
         kw = {} if i['factor'] == 'def' else {'sample2unit': _factor(np, i['factor'])}
         if i.get('pre'):
             _pre_file(np, path, i, tr, table)
-        export_waveforms(path, tr, samples, table, n_samples_waveforms=i['n'], cache=i['cache'], **kw)
+        arg, cwd, pp = path, None, i.get('ppath')
+        if pp == 'path':
+            from pathlib import Path
+            arg = Path(path)
+        elif pp in ('rel', 'relpath'):
+            from pathlib import Path
+            cwd = os.getcwd()
+            os.chdir(d)
+            arg = 'w.npy' if pp == 'rel' else Path('w.npy')
+        try:
+            export_waveforms(arg, tr, samples, table, n_samples_waveforms=i['n'], cache=i['cache'], **kw)
+        finally:
+            if cwd:
+                os.chdir(cwd)
     finally:
         if close:
             close()
@@ -1440,6 +1469,7 @@ def dist(case, obs):
     out.append('unrequested_samples=%s' % (i.get('poison') or 'ordinary'))
     if k in ('export', 'store', 'exportu'):
         out.append('file_at_export_path_before=%s' % (i.get('pre') or 'none'))
+        out.append('export_path_given_as=%s' % (i.get('ppath') or 'abs-str'))
     if k == 'model' and i.get('store'):
         out.append('file_at_export_path_before=%s' % (i['store'].get('pre') or 'none'))
     if obs[0] == 'crash':
@@ -1584,11 +1614,13 @@ def shrink(case):
     def mk(**kw):
         j = dict(i)
         j.update(kw)
-        for key in ('names', 'pkind', 'poison', 'pre'):
+        for key in ('names', 'pkind', 'poison', 'pre', 'ppath'):
             if j.get(key, 0) is None:
                 del j[key]
         return {'kind': k, 'inp': j}
     nr = sum(i['sizes'])
+    if i.get('ppath'):
+        yield mk(ppath=None)
     if i.get('pre'):
         yield mk(pre=None)
     if i.get('poison'):
